@@ -5,7 +5,7 @@ from .. import gen
 from ..common import Names, rat, run_impl, canon_ballots, condensed_map
 
 PROP = "C11"
-LEAN_MODULE = "VK.Props.C11"
+LEAN_MODULE = "VK.Check.C11"
 THEOREMS = [
     "VK.C11_condense_distinct",
     "VK.C11_condense_wt",
